@@ -55,7 +55,7 @@ def rule_fields(repo: Repo) -> RuleResult:
             r.fail(Finding("C17.fields", f, f"merge-missing:{fld}", f"combined_domain.{fld} is never merged from the agent domains"))
         else:
             r.fail(Finding("C17.fields", f, f"merge-crossed:{fld}", f"combined_domain.{fld} is fed from agent_domain.{sorted(src)}"))
-    # the loop covers every discovered file
+    # the loop covers every discovered file, and every file is merged on every path through the loop body
     p = L.prov(repo, f)
     loops = [n for n in ast.walk(f.node) if isinstance(n, ast.For)]
     r.site(f.qn + " [files]")
@@ -63,6 +63,29 @@ def rule_fields(repo: Repo) -> RuleResult:
         r.ok({"iterates": unparse(loops[0].iter, 60)})
     else:
         r.fail(Finding("C17.fields", f, "file-loop", "not every discovered domain file is merged"))
+    for fn_, root_, flds in ((f, "fresh:Domain", ("types", "predicates", "constants", "actions", "functions")),
+                            (repo.func("MultiAgentProblemsConverter.combine_problems"), "fresh:Problem", ("objects", "initial_state_fluents", "goal_state_fluents"))):
+        pp = L.prov(repo, fn_)
+        gg = C.cfg_of(fn_.node)
+        lps = [n for n in ast.walk(fn_.node) if isinstance(n, ast.For) and any("call:glob" in x for x in pp.trace(n.iter))]
+        r.site(fn_.qn + " [every file merged]")
+        if not lps:
+            r.fail(Finding("C17.fields", fn_, "file-loop", "loop over the discovered files not found"))
+            continue
+        head = gg.node_of(lps[0])
+        merge_nodes = {}
+        for c in L.calls_in(lps[0]):
+            if isinstance(c.func, ast.Attribute) and c.func.attr == "update":
+                dst = {x[1][5:] for x in pp.trace(c.func.value) if x[0] == root_ and len(x) >= 2 and x[1].startswith("attr:")}
+                for d in dst & set(flds):
+                    merge_nodes[d] = gg.node_containing(c)
+        paths = [pt for pt in C.acyclic_paths(gg, head, lambda n: False) if len(pt) > 1 and pt[0][1] == "iter"]
+        skipped = [d for d, n in merge_nodes.items() if any(n not in [x for x, _ in pt] and pt[-1][0] not in (gg.raise_,) for pt in paths)]
+        if skipped:
+            r.fail(Finding("C17.fields", fn_, f"merge-skipped:{'/'.join(sorted(skipped))}", f"some path through the loop body skips the merge of {sorted(skipped)} "
+                           f"(e.g. a `continue` for files that look redundant): the result then depends on the order in which the files are found"))
+        else:
+            r.ok({"function": fn_.qn, "merges_on_every_path": sorted(merge_nodes)})
     g = repo.func("MultiAgentProblemsConverter.combine_problems")
     got = _merge_calls(repo, g, "fresh:Problem", "call:parse_problem")
     for fld in ("objects", "initial_state_fluents", "initial_state_predicates", "goal_state_predicates", "goal_state_fluents"):
@@ -74,7 +97,7 @@ def rule_fields(repo: Repo) -> RuleResult:
             r.fail(Finding("C17.fields", g, f"merge-missing:{fld}", f"combined_problem.{fld} is never merged from the agent problems"))
         else:
             r.fail(Finding("C17.fields", g, f"merge-crossed:{fld}", f"combined_problem.{fld} is fed from agent_problem.{sorted(src)}"))
-    r.require_sites(11)
+    r.require_sites(13)
     return r
 
 
